@@ -27,7 +27,7 @@ PROP = dict(
           "a sample with > 1 value, the permutation differs, N > 1. dates: pairs of instants (equal, 1 ns/1 s apart, within a day, "
           "independent; years 0001-9999) written in both forms; equal instants -> equal strings, earlier -> smaller string, "
           "normalised string is a fixed point, constructed non-dates are errors; non-trivial = the two texts differ. "
-          "direct-mode orders may build the series once after k results and throw them away; series also checks the exported Summaries matrix cell by cell against SummaryAt. Distinct = distinct case JSON (64-bit FNV), capped at 300000 per shard."),
+          "direct-mode orders may build the series once after k results and throw them away; bootstrap: every point is also summarised on its own and must give the same numbers; a subnormal value kind; series: lines padded to 29-71 measurements under a unit filter, integer measurements written with all digits (2^63 among them); series also checks the exported Summaries matrix cell by cell against SummaryAt. Distinct = distinct case JSON (64-bit FNV), capped at 300000 per shard."),
     assumptions=[
         "Inputs respect the functional dependencies of real data: one series stamp (instant) and one (numerator hash, denominator hash) pair per numerator hash, all series measured in one experiment share the denominator hash; otherwise the library prints a mismatch warning and keeps either",
         "Table key values are non-empty and free of spaces; a table is identified by ComparisonSeries.Unit = unit followed by the table key values separated by spaces (observed naming, pinned for the no-table case by TestBasic)",
